@@ -1,7 +1,117 @@
-//! C08 (to be filled in)
+//! C08 — --no-clobber never alters anything that already exists in the destination
+
 use super::*;
-pub fn run(_ctx: &Ctx) -> Report {
-    let mut r = Report::new("model_checking", "not implemented");
-    r.machinery_errors.push("C08 not implemented yet".into());
-    r
+use crate::explore::{explore, Judge};
+use crate::scen::{Entry, Kind};
+use std::sync::Arc;
+
+pub fn judge(_w: &Worker, scen: &Scenario, ex: &Exec) -> Judgement {
+    let exp = model::expect(scen);
+    let mut v = model::untouched(&exp, &ex.before, &ex.snap);
+    if let Some(why) = &exp.must_fail {
+        if exit0(ex) {
+            v.push(format!("exit 0 although {}", why));
+        }
+    }
+    v.truncate(6);
+    simple_judge(v, ex, exp.must_fail.is_some())
+}
+
+fn src_tree() -> Vec<Entry> {
+    vec![
+        Entry::dir("src"),
+        Entry::file("src/f1", "file one").mtime(1_300_000_000, 1),
+        Entry::file("src/f2", "file two!").mtime(1_300_000_001, 2),
+        Entry::dir("src/d"),
+        Entry::file("src/d/g", "nested g").mtime(1_300_000_002, 3),
+        Entry::link("src/l", "f1"),
+        Entry::new("src/p", Kind::Fifo),
+    ]
+}
+
+pub fn scenarios(quick: bool) -> Vec<Scenario> {
+    let mut v = vec![];
+    // with -n xcp refuses a directory that maps onto an existing directory (the property leaves that
+    // open), so collisions at every position in walk order are produced with several source arguments
+    let names = ["f1", "f2", "d", "l", "p"];
+    let kinds = ["file", "dir", "fifo", "link-to-file", "dangling-link"];
+    for d in drivers() {
+        for w in if quick { vec![2u32] } else { vec![1, 2, 3] } {
+            let ws = w.to_string();
+            for order in ["fwd", "rev"] {
+                let mut srcs: Vec<String> = names.iter().map(|n| format!("src/{}", n)).collect();
+                if order == "rev" {
+                    srcs.reverse();
+                }
+                for at in names {
+                    for k in kinds {
+                        let mut tree = src_tree();
+                        tree.push(Entry::dir("dst"));
+                        tree.push(Entry::file("dst/bystander", "keep me").mtime(1_200_000_000, 5).mode(0o600));
+                        tree.push(Entry::file("dst/target-of-link", "linked content").mtime(1_200_000_001, 6));
+                        let p = format!("dst/{}", at);
+                        match k {
+                            "file" => tree.push(Entry::file(&p, "EXISTING").mtime(1_200_000_002, 7).mode(0o604)),
+                            "dir" => {
+                                tree.push(Entry::dir(&p));
+                                tree.push(Entry::file(&format!("{}/other", p), "other").mtime(1_200_000_003, 8));
+                            }
+                            "fifo" => tree.push(Entry::new(&p, Kind::Fifo).mode(0o622)),
+                            "link-to-file" => tree.push(Entry::link(&p, "{R}/dst/target-of-link")),
+                            _ => tree.push(Entry::link(&p, "{R}/dst/not-there")),
+                        };
+                        let mut args: Vec<&str> = vec!["-r", "-n", "--driver", d, "-w", &ws, "--block-size", "4"];
+                        for s in &srcs {
+                            args.push(s);
+                        }
+                        args.push("dst");
+                        v.push(Scenario::new(&format!("noclobber-{}-at-{}-{}-{}-w{}", k, at, order, d, w), tree, &args));
+                    }
+                }
+                // no collision at all: must succeed and leave bystanders alone
+                let mut tree = src_tree();
+                tree.push(Entry::dir("dst"));
+                tree.push(Entry::file("dst/bystander", "keep me").mtime(1_200_000_000, 5));
+                let mut args: Vec<&str> = vec!["-r", "-n", "--driver", d, "-w", &ws, "--block-size", "4"];
+                for s in &srcs {
+                    args.push(s);
+                }
+                args.push("dst");
+                v.push(Scenario::new(&format!("noclobber-nocollision-{}-{}-w{}", order, d, w), tree, &args));
+            }
+            // a collision below a directory that is itself new at the destination cannot pre-exist; the
+            // remaining shape is a tree copied to a fresh name next to bystanders
+            let mut tree = src_tree();
+            tree.push(Entry::dir("dst"));
+            tree.push(Entry::file("dst/bystander", "keep me").mtime(1_200_000_000, 5));
+            v.push(Scenario::new(&format!("noclobber-tree-into-dir-{}-w{}", d, w), tree, &["-r", "-n", "--driver", d, "-w", &ws, "src", "dst"]));
+            // single-file forms
+            v.push(Scenario::new(&format!("noclobber-single-{}-w{}", d, w), vec![Entry::file("a", "new"), Entry::file("b", "EXISTING").mtime(1_200_000_000, 1)], &["-n", "--driver", d, "-w", &ws, "a", "b"]));
+            v.push(Scenario::new(&format!("noclobber-single-into-dir-{}-w{}", d, w), vec![Entry::file("a", "new"), Entry::dir("t"), Entry::file("t/a", "EXISTING").mtime(1_200_000_000, 1)], &["-n", "--driver", d, "-w", &ws, "a", "t"]));
+            v.push(Scenario::new(&format!("noclobber-fifo-onto-file-{}-w{}", d, w), vec![Entry::new("p", Kind::Fifo), Entry::file("q", "EXISTING").mtime(1_200_000_000, 1)], &["-n", "--driver", d, "-w", &ws, "p", "q"]));
+            v.push(Scenario::new(&format!("noclobber-link-onto-link-{}-w{}", d, w), vec![Entry::file("t", "x"), Entry::link("l", "t"), Entry::link("m", "nowhere")], &["-n", "--driver", d, "-w", &ws, "l", "m"]));
+        }
+    }
+    v
+}
+
+pub fn run(ctx: &Ctx) -> Report {
+    let mut rep = Report::new(
+        "model_checking",
+        "source tree {2 files, directory with a file, link, FIFO} copied with -n onto destinations in which one entry (each position in turn) already exists as {file, directory, FIFO, link to a file, dangling link}, plus bystanders; both drivers; all executions with <= d scheduling deviations from P0 and P1; oracle: every pre-existing destination entry is identical before/after (content, kind, mode, owner, mtime, ctime, inode, xattrs) and the exit status is non-zero when a file, link or special node maps onto an existing entry; non-trivial = a collision exists, counted per distinct trace",
+    );
+    let j: Judge = &judge;
+    let d = if ctx.quick() { 1 } else { 2 };
+    let mut jobs = vec![];
+    for s in scenarios(ctx.quick()) {
+        let s = Arc::new(s);
+        for b in base_specs() {
+            jobs.push((s.clone(), b, d));
+        }
+    }
+    let n = jobs.len() / 2;
+    let st = explore(&ctx.pool, jobs, j);
+    rep.part("collisions at every position x kind", st, serde_json::json!({"scenarios": n, "d": d}));
+    rep.assumptions = vec!["a source directory onto an existing directory may be refused or merged (left open by the property)".into()];
+    rep
 }
